@@ -190,7 +190,7 @@ def _hash(ids, ev, seed):
 
 def gen_values(dt, gen, ev, ids, base, seed):
     """Sample values as raw unsigned bit patterns (uint64 array), one per id.
-    gen: ["rnd"] | ["ramp", M] | ["bit", P] | ["const", c]"""
+    gen: ["rnd"] | ["ramp", M] | ["bit", P] | ["const", c] | ["bpat", B]"""
     bt, bits = DTYPES[dt]
     n = len(ids)
     kind = gen[0]
@@ -209,6 +209,19 @@ def gen_values(dt, gen, ev, ids, base, seed):
         iv = (np.mod(ids - base, gen[1]) < (gen[1] + 1) // 2).astype(np.int64)
     elif kind == "const":
         iv = np.full(n, gen[1], dtype=np.int64)
+    elif kind == "bpat":
+        # every stored byte is gen[1]: sub-byte samples repeat with period 8 (1 bit) / 2 (4 bits) relative to
+        # the signal's first sample; wider samples are the byte repeated
+        B = int(gen[1]) & 0xFF
+        if bits < 8:
+            per = 8 // bits
+            ph = np.mod(ids - base, per).astype(np.int64)
+            iv = (B >> (ph * bits)) & ((1 << bits) - 1)
+        else:
+            v = 0
+            for _ in range(bits // 8):
+                v = (v << 8) | B
+            return np.full(n, v, dtype=np.uint64)
     else:
         raise ValueError(gen)
     if bt == BT_FLOAT:
@@ -420,6 +433,8 @@ class Driver:
 
     def op_omit(self, op):
         rc = self.fn("fsr_omit_data")(self.wr, op["sig"], op["en"])
+        if rc == 0 and op["en"]:
+            self.sig(op["sig"])["omitted"] = True
         self.emit({"e": "Omit", "sig": op["sig"], "en": op["en"], "rc": rc})
 
     @staticmethod
@@ -763,7 +778,7 @@ class Driver:
             if st == 0 and s and s["dt"]:
                 v = ct.c_int64(-1)
                 lrc = self.L.jls_rd_fsr_length(h, g, ct.byref(v))
-                ent = {"sig": g, "lrc": lrc, "len": _clip(v.value) if lrc == 0 else -1, "rrc": 0, "runs": [], "g": True}
+                ent = {"sig": g, "lrc": lrc, "len": _clip(v.value) if lrc == 0 else -1, "rrc": 0, "runs": [], "g": True, "st": []}
                 if lrc == 0 and 0 < v.value <= 4000000:
                     nlen = int(v.value)
                     bits = DTYPES[s["dt"]][1]
@@ -776,9 +791,14 @@ class Driver:
                         d = SignalDef()
                         self.L.jls_rd_signal(h, g, ct.byref(d))
                         first_abs = d.sample_id_offset
-                        runs = self.runs_abs(s, s["dt"], first_abs, unpack(s["dt"], bytes(buf)[:nbytes], nlen))
+                        got = unpack(s["dt"], bytes(buf)[:nbytes], nlen)
+                        runs = self.runs_abs(s, s["dt"], first_abs, got)
                         ent["runs"] = runs
                         ent["first"] = _clip(first_abs - s["base"])
+                        # blocks stored only as summaries read back as their mean: statistics and returned samples
+                        # legitimately differ there (omission on request; automatic for constant blocks of <= 8 bit types)
+                        may_omit = s.get("omitted") or (bits <= 8 and any(w_[3][0] != "rnd" for w_ in s["wev"]))
+                        ent["st"] = [] if may_omit else self.stats_obs(h, g, s["dt"], got, d)
                 obs["sigs"].append(ent)
             if s is not None or g == 0:
                 ss = self.sig(g)
@@ -815,6 +835,45 @@ class Driver:
         udc = UD_CBK(udcb)
         obs["ud"] = {"rc": self.L.jls_rd_user_data(h, udc, None), "items": ud}
         return obs
+
+    def stats_obs(self, h, g, dt, got, d):
+        """Statistics the reader reports for a few windows, next to the same quantities computed from the samples the
+        reader just returned (projections only: sums and extremes scaled by 8 and rounded; the specification compares).
+        One entry per window: [rc, sum_lib, sum_samples, min_lib, min_samples, max_lib, max_samples]."""
+        n = len(got)
+        if n == 0 or n > 200000:
+            return []
+        f = to_float(dt, got)
+        if not np.isfinite(f).all() or np.abs(f).max() > 1e5 or np.abs(f).max() * n > 2e8:
+            return []
+        sdf = max(1, int(d.sample_decimate_factor))
+        # single-window requests are sample accurate by contract; multi-window requests only when every window is
+        # a whole number of level-1 entries (inner boundaries of other requests are approximated by design)
+        queries = [(0, n, 1)]
+        c = min(5, n)
+        w = n // c
+        for k in range(c):
+            queries.append((k * w, w, 1))
+        if n > 3:
+            queries.append((1, n - 2, 1))
+            queries.append((n // 2, n - n // 2, 1))
+        if n >= sdf:
+            c = min(12, n // sdf)
+            queries.append((max(0, (n // sdf - c)) * sdf, sdf, c))
+        out = []
+        for (start, incr, cnt) in queries:
+            arr = (ct.c_double * (cnt * 4))()
+            rc = self.L.jls_rd_fsr_statistics(h, g, start, incr, arr, cnt)
+            for k in range(cnt):
+                w = f[start + k * incr:start + (k + 1) * incr]
+                mean, mn, mx = arr[4 * k + 0], arr[4 * k + 2], arr[4 * k + 3]
+                if rc != 0 or not all(np.isfinite([mean, mn, mx])) or abs(mean) > 1e6:
+                    out.append([int(rc) if rc else -1, 0, 0, 0, 0, 0, 0])
+                    continue
+                out.append([0, _clip(round(mean * incr * 8)), _clip(round(float(w.sum()) * 8)),
+                            _clip(round(mn * 8)), _clip(round(float(w.min()) * 8)),
+                            _clip(round(mx * 8)), _clip(round(float(w.max()) * 8))])
+        return out
 
     def crash_obs(self, img, w, j, mark, inplace, after_defs):
         import hashlib
@@ -943,7 +1002,9 @@ class Driver:
             st = op.get("stride", 1)
             faults = [("bit", [b]) for b in range(op.get("phase", 0) % st, nbits, st)]
         elif mode == "multi":       # 2- and 3-bit flips and bursts inside one protected region; zeroed / overwritten ranges; several regions
-            for _ in range(op.get("count", 1000)):
+            if op.get("minsize"):   # only regions at least this large (chunks beyond the reader's initial buffer)
+                regions = [r_ for r_ in regions if r_[1] - r_[0] >= op["minsize"]]
+            for _ in range(op.get("count", 1000) if regions else 0):
                 lo, hi, kind, tag = regions[int(rng.integers(0, len(regions)))]
                 r = rng.random()
                 if r < 0.3:
@@ -1107,7 +1168,7 @@ class Driver:
                    "len_eq_size": fh.get("length", -1) == len(img), "major": fh.get("major", -1), "size": _clip(len(img)), "file": op.get("file", "a")})
         for ch in chunks:
             d = lifter.decode(ch, str_tok, fnv, bases)
-            ev = {"e": "Chunk", "off": ch["off"], "tag": ch["tag"], "meta": ch["meta"], "plen": ch["plen"], "pprev": ch["pprev"],
+            ev = {"e": "Chunk", "file": op.get("file", "a"), "off": ch["off"], "tag": ch["tag"], "meta": ch["meta"], "plen": ch["plen"], "pprev": ch["pprev"],
                   "next": _clip(ch["next"]), "prev": _clip(ch["prev"]), "hcrc": ch["crc_ok"], "pcrc": ch["pcrc_ok"], "pad0": ch["pad0"], "rsv": ch["rsv"],
                   "kind": d["kind"], "tt": d["tt"], "ck": d["ck"], "sig": d["sig"], "lvl": d["lvl"], "ok": bool(d["ok"]),
                   "ts": d.get("ts", 0), "cnt": d.get("cnt", 0), "esb": d.get("esb", 0),
@@ -1127,7 +1188,7 @@ class Driver:
                     ev["runs"] = self.runs_abs(s, s["dt"], d["ts"] + s["base"], got)
                     ev["blen"] = len(body)
             self.emit(ev)
-        self.emit({"e": "FileEnd", "why": why, "nchunks": len(chunks), "size": _clip(len(img))})
+        self.emit({"e": "FileEnd", "file": op.get("file", "a"), "why": why, "nchunks": len(chunks), "size": _clip(len(img))})
 
     def op_sumsnap(self, op):
         """remember the stored summaries of a file; report which level-1 index entries are 0 (omitted blocks)"""
